@@ -253,6 +253,15 @@ def cli_case(col, rng, tmpdir, watch):
         return
     if not target_text.strip() or target_text.strip() == '-':
         return
+    # surrounding whitespace that the loaders accept must not matter, whatever the channel: JSON / Python literals may be
+    # padded, a YAML document may be uniformly indented
+    pad = rng.random()
+    if pad < 0.15 and fmt in ('json', 'python'):
+        target_text = rng.choice(['  ', '\n', ' \n ']) + target_text + rng.choice(['', '\n\n', '  '])
+        if fmt == 'python':
+            target_text = target_text.lstrip()      # (a Python literal must not start with indentation)
+    elif pad < 0.3 and fmt == 'yaml' and isinstance(target, dict) and target:
+        target_text = ''.join('  ' + ln + '\n' for ln in target_text.splitlines())
     eff_indent = 2 if indent is None else indent
     want = library_expectation(target, spec, eff_indent, scalar)
     if want is None:
@@ -346,6 +355,13 @@ def malformed_targets(col, tmpdir):
             if status == 0 or 'error' not in (out + err).lower() or out.strip().startswith(('{', '[', '"')) and status == 0:
                 col.violation('C19/malformed-target-not-a-usage-error:' + fmt, 'glom %s (stdin %r): status %r stdout %r stderr %r'
                               % (argv, stdin, status, out, short(err)), None)
+    # whitespace-only target text is not valid JSON: a usage error on every channel, not an (empty) result
+    for channel, argv, stdin in (('argv', ['a', '  '], None), ('stdin', ['a', '-'], ' \n '), ('stdin-implicit', ['a'], '\n\n')):
+        status, out, err = run_cli(argv, stdin)
+        col.case(('whitespace-only', channel), True)
+        col.count('malformed_target_runs')
+        if status == 0:
+            col.violation('C19/whitespace-only-target-not-a-usage-error:' + channel, 'glom %s (stdin %r): status %r stdout %r' % (argv, stdin, status, out), None)
     # unreadable files
     for argv in (['--target-file', os.path.join(tmpdir, 'does-not-exist'), 'a'], ['--spec-file', os.path.join(tmpdir, 'nope'), '{}']):
         status, out, err = run_cli(argv, '{}')
